@@ -27,6 +27,20 @@ class C12(TieCheck):
         "pool ownership invariant (pool_ok / sep): the two Params backing arrays of a pooled context are private to it",
     ]
 
+    def harness_args(self, tier):
+        # thorough: many small case files (a coqc process on a 6 MB file needs several GB; 16 run in parallel)
+        return ["tier=" + tier] + (["shards=128"] if tier == "thorough" else [])
+
+    def run(self, tier, seed, replay=None):
+        # a replay file names the seed and tier of the run that failed; the harness is deterministic in them
+        if replay:
+            try:
+                d = json.load(open(replay))
+                seed, tier = int(d.get("seed", seed)), d.get("tier", tier)
+            except Exception:  # noqa
+                pass
+        return super().run(tier, seed, replay)
+
     def extra(self, tier, seed, work, coverage):
         """thorough tier: the concurrent part again under the Go race detector"""
         if tier != "thorough" or os.environ.get("VERIF_NO_RACE") == "1":
